@@ -83,6 +83,8 @@ func checkC09(c *an.Ctx) {
 	c.Rule("C09.4", "call-site agreement (E4): every CompileCommand caller passes the task's Dir, and hooks/commands pass the task's env chain")
 	c.Summaries = append(c.Summaries, "mvdan.cc/sh/v3@v3.1.1 expand.ListEnviron sorts its arguments and keeps, for a repeated name, the lexically last pair (read in expand/environ.go)")
 	c.Rule("C09.5", "env_file reader contract (E3 + library summary): in ReadEnvFile the data a bufio.Reader returns together with io.EOF is used, and a bufio.Scanner's Err is consulted and returned before success: every line of the file reaches the env_file level")
+	c.Rule("C09.6", "an interpreter serves one phase of one task run (lifetime, who-may-keep): every executor the module constructs stays within the call that constructed it — it is kept in locals, handed down to callees, or held in an object that itself does not outlive the call; it is never stored in a field of the runner, of a context, of a task, or in a package variable (library summary: the interpreter keeps its shell state — $PWD, assigned variables, options — from one Run to the next, so a shared one carries one task's directory and variables into another's commands)")
+	c.Summaries = append(c.Summaries, "mvdan.cc/sh/v3@v3.1.1 interp.Runner.Run resets the shell state from Dir/Env only on the first Run (Reset is not called again): $PWD and variables assigned by earlier scripts persist in the Runner (read in interp/api.go)")
 	c.NotDecided = append(c.NotDecided, "what the shell does with the environment afterwards", "values (the chain rule is value-independent by construction)", "how one env_file line is split into name and value (C15 covers its crash-freedom)")
 	p := c.P
 	r := resolveRunner(c, "C09.0")
@@ -99,6 +101,8 @@ func checkC09(c *an.Ctx) {
 		return
 	}
 	c.OK("C09.0", "runner roles", r.run.Pos(), "sites: Run, CompileTask, buildTask, runStage, Execute")
+	processEnvEntry(c, "C09.1")
+	executorScope(c, "C09.6")
 
 	// (a) Run: env handed to CompileTask
 	envArg := argOf(r.compileCall, ct, "env")
@@ -683,13 +687,103 @@ func executeEnv(c *an.Ctx, rule1, rule2 string) {
 				return
 			}
 			good := false
+			why := an.Prov(st.Val)
 			for _, src := range an.Sources(st.Val) {
-				if call, ok := src.(*ssa.Call); ok && an.ShortCallee(&call.Call) == "os.Environ" {
+				call, ok := src.(*ssa.Call)
+				if !ok {
+					continue
+				}
+				if an.ShortCallee(&call.Call) == "os.Environ" {
+					good = true
+					continue
+				}
+				// a helper of the module that re-shapes os.Environ() (into a map by name, say): every key and value
+				// it stores is cut out of an entry of its argument by position only
+				h := call.Call.StaticCallee()
+				if h == nil || !an.InModule(h) || h.Blocks == nil || len(call.Call.Args) != 1 {
+					continue
+				}
+				fromEnviron := false
+				for _, a := range an.Sources(call.Call.Args[0]) {
+					if ac, ok := a.(*ssa.Call); ok && an.ShortCallee(&ac.Call) == "os.Environ" {
+						fromEnviron = true
+					}
+				}
+				if !fromEnviron {
+					continue
+				}
+				okH, nW := true, 0
+				fromParam := func(v ssa.Value) bool {
+					// the entry the part is cut from is an element of the helper's parameter
+					seen := map[ssa.Value]bool{}
+					var walk func(v ssa.Value, d int) bool
+					walk = func(v ssa.Value, d int) bool {
+						if v == nil || d > 8 || seen[v] {
+							return false
+						}
+						seen[v] = true
+						for _, s2 := range an.Sources(v) {
+							switch x := s2.(type) {
+							case *ssa.Parameter:
+								if x == h.Params[0] {
+									return true
+								}
+							case *ssa.Slice:
+								if walk(x.X, d+1) {
+									return true
+								}
+							case *ssa.UnOp:
+								if ia, ok := x.X.(*ssa.IndexAddr); ok && walk(ia.X, d+1) {
+									return true
+								}
+							case *ssa.Extract:
+								if walk(x.Tuple, d+1) {
+									return true
+								}
+							case *ssa.Next:
+								if walk(x.Iter, d+1) {
+									return true
+								}
+							case *ssa.Range:
+								if walk(x.X, d+1) {
+									return true
+								}
+							case *ssa.Index:
+								if walk(x.X, d+1) {
+									return true
+								}
+							case *ssa.Call:
+								for _, a := range x.Call.Args {
+									if walk(a, d+1) {
+										return true
+									}
+								}
+							}
+						}
+						return false
+					}
+					return walk(v, 0)
+				}
+				an.EachInstr(h, func(in ssa.Instruction) {
+					mu, ok := in.(*ssa.MapUpdate)
+					if !ok {
+						return
+					}
+					nW++
+					for _, part := range []ssa.Value{mu.Key, mu.Value} {
+						if okV, culprit := verbatimPart(p, part, 4); !okV {
+							okH, why = false, an.Short(h)+" passes the entry through "+culprit
+						} else if !fromParam(part) {
+							okH, why = false, an.Short(h)+" stores something that is not a part of an entry of its argument"
+						}
+					}
+				})
+				if okH && nW > 0 {
 					good = true
 				}
 			}
 			found = true
-			c.Check(good, rule1, an.Short(fn)+":DefaultExecutor.env", st.Pos(), "the executor's base environment is os.Environ()", "the executor's base environment is not os.Environ(): "+an.Prov(st.Val))
+			c.Check(good, rule1, an.Short(fn)+":DefaultExecutor.env", st.Pos(), "the executor's base environment is os.Environ()", "the executor's base environment is not os.Environ(): "+why)
 		})
 	}
 	if !found {
@@ -999,4 +1093,224 @@ func verbatimPart(p *an.Prog, v ssa.Value, depth int) (bool, string) {
 		}
 	}
 	return true, ""
+}
+
+// processEnvEntry: the environment of the taskctl process enters a command's environment at the lowest level
+// only — as the executor's base layer. Every reader of the process environment in the module (os.Environ,
+// syscall.Environ, os.Getenv, os.LookupEnv, os.ExpandEnv) is followed forward; what it read must not reach a
+// variables container (a function of pkg/variables, an Env field) — every such container is a higher level than
+// the executor's base, so an inherited name would beat what the runner, the context or the task define there
+// (ARGS, stored outputs, TASK_NAME …).
+func processEnvEntry(c *an.Ctx, rule string) {
+	p := c.P
+	readers := map[string]bool{"os.Environ": true, "syscall.Environ": true, "os.Getenv": true, "os.LookupEnv": true, "os.ExpandEnv": true}
+	nSites, nBase := 0, 0
+	for _, fn := range p.Funcs {
+		if !an.InModule(fn) || fn.Parent() != nil {
+			continue
+		}
+		for _, f := range an.WithAnon(fn) {
+			an.EachInstr(f, func(in ssa.Instruction) {
+				call, ok := in.(*ssa.Call)
+				if !ok || !readers[an.ShortCallee(&call.Call)] {
+					return
+				}
+				nSites++
+				var bad []string
+				for _, u := range p.FlowsFrom(fn, []ssa.Value{call}, 3) {
+					switch x := u.In.(type) {
+					case *ssa.Store:
+						fa, ok := x.Addr.(*ssa.FieldAddr)
+						if !ok {
+							continue
+						}
+						tf := an.TypeField(fa)
+						if tf == "DefaultExecutor.env" {
+							nBase++
+							continue
+						}
+						if strings.HasSuffix(tf, ".Env") || an.TypeIs(fa.Type().(*types.Pointer).Elem(), "pkg/variables", "Container") {
+							bad = append(bad, fmt.Sprintf("is stored in %s (%s)", tf, p.Pos(x.Pos())))
+						}
+					case ssa.CallInstruction:
+						for _, callee := range p.Callees(x.Common()) {
+							if inPkgs("pkg/variables")(callee) {
+								bad = append(bad, fmt.Sprintf("is handed to %s (%s)", an.Short(callee), p.Pos(x.Pos())))
+							}
+						}
+					}
+				}
+				bad = dedup(bad)
+				key := an.Short(f) + ":" + an.ShortCallee(&call.Call)
+				if len(bad) > 0 {
+					c.Bad(rule, key, call.Pos(), "what %s reads from the process environment %s: the inherited environment enters above the executor's base layer and beats the levels below that point (the runner's ARGS and stored outputs, …)", an.ShortCallee(&call.Call), strings.Join(bad, "; "))
+				} else {
+					c.OK(rule, key, call.Pos(), "the process environment read here reaches no variables container")
+				}
+			})
+		}
+	}
+	if nSites == 0 || nBase == 0 {
+		c.Und(rule, "process-environment readers", token.NoPos, "no reader of the process environment feeds the executor's base layer (%d readers found)", nSites)
+	}
+}
+
+// isExecutorType: (a pointer to) a named type of pkg/executor with an Execute method.
+func isExecutorType(t types.Type) bool {
+	if pt, ok := t.(*types.Pointer); ok {
+		t = pt.Elem()
+	}
+	n, ok := t.(*types.Named)
+	if !ok || n.Obj().Pkg() == nil || !strings.HasSuffix(n.Obj().Pkg().Path(), "pkg/executor") {
+		return false
+	}
+	ms := types.NewMethodSet(types.NewPointer(n))
+	for i := 0; i < ms.Len(); i++ {
+		if ms.At(i).Obj().Name() == "Execute" {
+			return true
+		}
+	}
+	return false
+}
+
+// isExecutorCtor: a function of pkg/executor that hands out an executor together with an error (the constructor
+// and thin wrappers of it).
+func isExecutorCtor(fn *ssa.Function) bool {
+	return fn != nil && inPkgs("pkg/executor")(fn) && fn.Signature.Results().Len() == 2 && isExecutorType(fn.Signature.Results().At(0).Type())
+}
+
+// executorScope checks C09.6.
+func executorScope(c *an.Ctx, rule string) {
+	p := c.P
+	// constructors: module functions outside tests whose first result is (a pointer to) a type of pkg/executor with an Execute method
+	var ctors []*ssa.Function
+	for _, fn := range p.Funcs {
+		if !an.InModule(fn) || fn.Parent() != nil || fn.Signature.Recv() != nil || fn.Signature.Results().Len() == 0 {
+			continue
+		}
+		if isExecutorType(fn.Signature.Results().At(0).Type()) && inPkgs("pkg/executor")(fn) {
+			ctors = append(ctors, fn)
+		}
+	}
+	if len(ctors) == 0 {
+		c.Und(rule, "executor constructors", token.NoPos, "no constructor of an executor found in pkg/executor")
+		return
+	}
+	nSites := 0
+	for _, ctor := range ctors {
+		// the constructor hands out a fresh object
+		for _, ret := range an.Returns(ctor) {
+			rv := an.RetVal(ret, 0)
+			if an.IsNilConst(rv) {
+				continue
+			}
+			fresh := true
+			for _, src := range an.ResolveAll(rv) {
+				if _, ok := src.(*ssa.Alloc); !ok && !an.IsNilConst(src) {
+					fresh = false
+				}
+			}
+			c.Check(fresh, rule, an.Short(ctor)+":fresh", ret.Pos(), "returns an executor it allocated", "does not return a freshly allocated executor ("+an.Prov(rv)+"): callers share one interpreter")
+		}
+		for _, site := range p.CallSitesOf(ctor) {
+			fn := site.Parent()
+			if !an.InModule(fn) {
+				continue
+			}
+			sv, ok := site.(ssa.Value)
+			if !ok {
+				continue
+			}
+			nSites++
+			var kept []string
+			seen := map[ssa.Value]bool{}
+			var follow func(v ssa.Value, depth int)
+			follow = func(v ssa.Value, depth int) {
+				if seen[v] || v.Referrers() == nil {
+					return
+				}
+				seen[v] = true
+				for _, ref := range *v.Referrers() {
+					switch x := ref.(type) {
+					case *ssa.Extract:
+						if x.Index == 0 || x.Tuple != v {
+							follow(x, depth)
+						}
+					case *ssa.Phi, *ssa.MakeInterface, *ssa.ChangeInterface, *ssa.ChangeType, *ssa.TypeAssert:
+						follow(x.(ssa.Value), depth)
+					case *ssa.Store:
+						if x.Val != v {
+							continue
+						}
+						switch a := x.Addr.(type) {
+						case *ssa.Global:
+							kept = append(kept, "package variable "+a.Name()+" ("+p.Pos(x.Pos())+")")
+						case *ssa.FieldAddr:
+							if localObject(p, a.X) == nil {
+								kept = append(kept, "field "+an.TypeField(a)+" ("+p.Pos(x.Pos())+")")
+							}
+						case *ssa.Alloc:
+							// a local variable: follow its loads
+							if a.Referrers() != nil {
+								for _, r2 := range *a.Referrers() {
+									if u, ok := r2.(*ssa.UnOp); ok && u.Op == token.MUL {
+										follow(u, depth)
+									}
+									if mc, ok := r2.(*ssa.MakeClosure); ok {
+										_ = mc // captured by a closure of the same call
+									}
+								}
+							}
+						case *ssa.IndexAddr:
+							kept = append(kept, "an element of "+an.Prov(a.X)+" ("+p.Pos(x.Pos())+")")
+						default:
+							kept = append(kept, an.Prov(x.Addr)+" ("+p.Pos(x.Pos())+")")
+						}
+					case *ssa.MapUpdate:
+						if x.Value == v {
+							kept = append(kept, "map "+an.Prov(x.Map)+" ("+p.Pos(x.Pos())+")")
+						}
+					case *ssa.Send:
+						if x.X == v {
+							kept = append(kept, "channel "+an.Prov(x.Chan)+" ("+p.Pos(x.Pos())+")")
+						}
+					case *ssa.Return:
+						// handed back to the caller: follow at the callers (wrappers of the constructor)
+						if depth < 2 {
+							for _, s2 := range p.CallSitesOf(x.Parent()) {
+								if v2, ok := s2.(ssa.Value); ok && an.InModule(s2.Parent()) {
+									follow(v2, depth+1)
+								}
+							}
+						}
+					case ssa.CallInstruction:
+						cc := x.Common()
+						for i, a := range cc.Args {
+							if a != v {
+								continue
+							}
+							for _, callee := range p.Callees(cc) {
+								if !an.InModule(callee) || callee.Blocks == nil || depth >= 2 {
+									continue
+								}
+								pi := i
+								if cc.IsInvoke() {
+									pi = i + 1
+								}
+								if pi < len(callee.Params) && !(callee.Signature.Recv() != nil && pi == 0 && inPkgs("pkg/executor")(callee)) {
+									follow(callee.Params[pi], depth+1)
+								}
+							}
+						}
+					}
+				}
+			}
+			follow(sv, 0)
+			kept = dedup(kept)
+			c.Check(len(kept) == 0, rule, an.Short(fn)+":"+an.Short(ctor), site.Pos(), "the executor stays within the call that constructed it", "the executor constructed here is kept in "+strings.Join(kept, ", ")+": it outlives the call and serves other tasks or phases, and the interpreter inside carries its shell state ($PWD, assigned variables) from one job to the next — a later command runs with an earlier task's directory and variables instead of its own")
+		}
+	}
+	if nSites == 0 {
+		c.Und(rule, "executor constructors:call sites", token.NoPos, "no executor is constructed in the module")
+	}
 }
